@@ -1221,11 +1221,12 @@ def g_apisweep(rng):
 from gen_ordvec import g_ordvec
 from gen_achain import g_achain
 from gen_bddsim import g_bddsim
+from gen_binrel import g_binrel
 
 
 GENERATORS = {
     "apisweep": g_apisweep,
-    "ordvec": g_ordvec, "achain": g_achain, "bddsim": g_bddsim,
+    "ordvec": g_ordvec, "achain": g_achain, "bddsim": g_bddsim, "binrel": g_binrel,
     **{k: mk_cliop(v) for k, v in CLIOPS.items()},
     "meta": g_meta, "metaf": g_metaf,
     "parse": g_parse,
